@@ -1,5 +1,6 @@
 ------------------------------ MODULE MC_CArc ------------------------------
 EXTENDS CArc, TLC
+CONSTANT MaxH   \* model checking only: at most this many foreign handle objects per behaviour (ids are never reused)
 
 FreeSlots == {s \in Slot : IsFree(s)}
 Unmade == {a \in Alloc : ~made[a]}
@@ -11,6 +12,7 @@ Held(t) == {s \in Slot : Owns(t, s)}
 
 Actions ==
   {[op |-> "FromValue", t |-> t, s |-> s, a |-> a, k |-> k] : t \in Thread, s \in Dst, a \in NewA, k \in {"CArc", "Some"}}
+  \cup {[op |-> "FromForeign", t |-> t, s |-> s, a |-> a, k |-> k] : t \in Thread, s \in Dst, a \in NewA, k \in {"CArc", "Some"}}
   \cup {[op |-> "EnvNewArc", a |-> a] : a \in NewA}
   \cup {[op |-> "FromArc", t |-> t, s |-> s, a |-> a, k |-> k] : t \in Thread, s \in Dst, a \in {x \in Alloc : keep[x]}, k \in {"CArc", "Some"}}
   \cup {[op |-> "MakeEmpty", t |-> t, s |-> s] : t \in Thread, s \in Dst}
@@ -27,5 +29,6 @@ Next == \E e \in Actions : Do(e)
 Spec == Init /\ [][Next]_vars
 
 (* the call counters only ever grow: keep them out of the fingerprint         *)
-View == <<slot, strong, made, keep, vdrops>>
+View == <<slot, strong, made, keep, vdrops, foreign, hrel>>
+Bounded == Len(hrel) <= MaxH
 =============================================================================
